@@ -39,21 +39,12 @@ Proof.
 Qed.
 
 (* ---------------------------------------------------------------- observations *)
-Definition clean_pr (e : pr) : pr :=
-  match snd e with PR v => (fst e, PR (match v with RPtr => RNil | _ => v end)) | _ => e end.
-
-(* what the specification shows for the model's observation: an unresolved result is NIL *)
-Definition clean_obs (o : obs) : obs :=
-  mkObs (map clean_pr (prints o)) (idle o) (nscripts o) (nthreads o) (timing o) (sizes o) (stale o).
-
 Lemma observe_R x1 x2 s :
-  R x1 x2 -> sflag x2 = false ->
-  clean_obs (observe model_prims x1 s) = observe spec_prims x2 s.
+  R x1 x2 -> sflag x2 = false -> observe model_prims x1 s = observe spec_prims x2 s.
 Proof.
-  intros HR Hf. unfold observe, clean_obs.
-  cbn [prints idle nscripts nthreads timing sizes stale model_prims spec_prims p_timing p_res p_flag].
+  intros HR Hf. unfold observe.
+  cbn [model_prims spec_prims p_timing p_flag].
   f_equal.
-  - rewrite map_map. apply map_ext. intros [t [m|v]]; reflexivity.
   - now apply timing_eq.
   - apply flat_map_ext_in'. intros o _. apply map_ext. intro n. unfold size_of.
     destruct (obj_of s o); [|reflexivity]. cbn [p_regsize model_prims spec_prims]. now apply regsize_eq.
@@ -62,9 +53,9 @@ Qed.
 
 Definition quiet (o : option obs) : Prop := exists ob, o = Some ob /\ stale ob = false.
 
-Lemma step_R x1 x2 s o x2' s' ob2 :
-  R x1 x2 -> step spec_prims x2 s o = Some (x2', s', ob2) -> stale ob2 = false ->
-  exists x1' ob1, step model_prims x1 s o = Some (x1', s', ob1) /\ R x1' x2' /\ clean_obs ob1 = ob2.
+Lemma step_R x1 x2 s o x2' s' ob :
+  R x1 x2 -> step spec_prims x2 s o = Some (x2', s', ob) -> stale ob = false ->
+  exists x1', step model_prims x1 s o = Some (x1', s', ob) /\ R x1' x2'.
 Proof.
   intros HR H Hst. unfold step in *. destruct o as [p|dt|].
   - set (s1 := new_class (new_thread (set_log s []) (ngrp (set_log s [])) p None)) in *.
@@ -72,10 +63,9 @@ Proof.
     destruct (go spec_prims (fuel_for s1 0) (KExecute (ntid (set_log s []))) x2 s1) as [[y2 t2]|]; [|discriminate].
     injection H as <- <- <-. cbn [rel] in Hq. cbn [observe stale p_flag spec_prims] in Hst.
     destruct Hq as [Hf|[y1 [E HR']]]; [cbn [p_flag spec_prims] in Hf; congruence|].
-    rewrite E. exists y1, (observe model_prims y1 t2). split; [reflexivity|]. split; [exact HR'|].
-    now apply observe_R.
-  - injection H as <- <- <-. exists x1, (observe model_prims x1 (set_clock (set_log s []) (clock (set_log s []) + dt))).
-    split; [reflexivity|]. split; [exact HR|]. apply observe_R; [exact HR | exact Hst].
+    rewrite E. exists y1. split; [|exact HR']. f_equal. f_equal. now apply observe_R.
+  - injection H as <- <- <-. exists x1. split; [|exact HR]. f_equal. f_equal.
+    apply observe_R; [exact HR | exact Hst].
   - pose proof (sim_ms (fuel_for (set_log s []) 0) KExecRunning _ _ (set_log s [])
                  (settime_R (clock (set_log s [])) x1 x2 HR)) as Hq.
     cbn [p_settime model_prims spec_prims] in *.
@@ -83,50 +73,27 @@ Proof.
       as [[y2 t2]|]; [|discriminate].
     injection H as <- <- <-. cbn [rel] in Hq. cbn [observe stale p_flag spec_prims] in Hst.
     destruct Hq as [Hf|[y1 [E HR']]]; [cbn [p_flag spec_prims] in Hf; congruence|].
-    rewrite E. exists y1, (observe model_prims y1 t2). split; [reflexivity|]. split; [exact HR'|].
-    now apply observe_R.
+    rewrite E. exists y1. split; [|exact HR']. f_equal. f_equal. now apply observe_R.
 Qed.
 
 Lemma run_from_R ops : forall x1 x2 s,
   R x1 x2 -> Forall quiet (run_from spec_prims x2 s ops) ->
-  map (option_map clean_obs) (run_from model_prims x1 s ops) = run_from spec_prims x2 s ops.
+  run_from model_prims x1 s ops = run_from spec_prims x2 s ops.
 Proof.
   induction ops as [|o ops IH]; intros x1 x2 s HR Hq; cbn [run_from] in *; [reflexivity|].
   destruct (step spec_prims x2 s o) as [[[x2' s'] ob2]|] eqn:E.
   - inversion Hq as [|? ? Hq1 Hq2]; subst. destruct Hq1 as [ob [Eo Hst]]. injection Eo as <-.
-    destruct (step_R x1 x2 s o x2' s' ob2 HR E Hst) as (x1' & ob1 & E1 & HR' & Ec).
-    rewrite E1. cbn [map option_map]. rewrite Ec. f_equal. now apply IH.
+    destruct (step_R x1 x2 s o x2' s' ob2 HR E Hst) as (x1' & E1 & HR').
+    rewrite E1. f_equal. now apply IH.
   - inversion Hq as [|? ? Hq1 Hq2]; subst. destruct Hq1 as [ob [Eo _]]. discriminate.
 Qed.
 
-(* The main theorem.  On every history on which the specification neither hangs nor meets a
-   cancelled registration, the model observes what the specification observes, up to the
-   unresolved result of a killed waitthread callee, which the specification shows as NIL. *)
+(* The main theorem.  On every history on which the specification neither runs out of fuel nor
+   meets a cancelled registration, the model observes exactly what the specification observes. *)
 Theorem run_refines_spec_where_quiet : forall ops,
-  Forall quiet (spec_run ops) -> map (option_map clean_obs) (run ops) = spec_run ops.
+  Forall quiet (spec_run ops) -> run ops = spec_run ops.
 Proof.
   intros ops H. unfold run, spec_run in *. apply run_from_R; [apply R_init | exact H].
-Qed.
-
-Definition no_ptr (o : option obs) : Prop :=
-  match o with Some ob => forall t, ~ In (t, PR RPtr) (prints ob) | None => True end.
-
-Lemma clean_obs_id ob : (forall t, ~ In (t, PR RPtr) (prints ob)) -> clean_obs ob = ob.
-Proof.
-  intro H. destruct ob as [p i ns nt tm sz st]. unfold clean_obs. cbn [prints idle nscripts nthreads timing sizes stale] in *.
-  f_equal. induction p as [|e p IH]; [reflexivity|]. cbn [map]. f_equal.
-  - destruct e as [t [m|[|v|]]]; try reflexivity. exfalso. apply (H t). now left.
-  - apply IH. intros t Ht. apply (H t). now right.
-Qed.
-
-(* ... and exactly what it observes when no such result is printed *)
-Theorem run_eq_spec_where_quiet : forall ops,
-  Forall quiet (spec_run ops) -> Forall no_ptr (run ops) -> run ops = spec_run ops.
-Proof.
-  intros ops Hq Hp. rewrite <- (run_refines_spec_where_quiet ops Hq).
-  induction (run ops) as [|o l IH]; [reflexivity|]. inversion Hp as [|? ? H1 H2]; subst.
-  cbn [map]. f_equal; [|now apply IH]. destruct o as [ob|]; [|reflexivity]. cbn [option_map]. f_equal.
-  symmetry. now apply clean_obs_id.
 Qed.
 
 (* ---------------------------------------------------------------- the findings refute the unconditional statement *)
@@ -141,11 +108,9 @@ Definition stale_witness : list op :=
 Theorem run_refines_spec_refuted_by_stale_wake : exists ops, run ops <> spec_run ops.
 Proof. exists stale_witness. vm_compute. discriminate. Qed.
 
-(* finding C07-unresolved-result: the callee is killed by its endon, the caller prints its result *)
-Definition ptr_witness : list op :=
+(* regression (former finding C07-unresolved-result, fixed by f3056f7): the callee is killed by
+   its endon; the caller proceeds and its result is NIL *)
+Definition killed_callee_witness : list op :=
   [ OStart [ ISpawn 0; IWaitThread [IEndOn 0 NC; IWaitTill 0 NA]; IPrintR ];
     OStart [ INotify 0 NC ];
     OExecute ].
-
-Theorem run_refines_spec_refuted_by_unresolved_result : exists ops, run ops <> spec_run ops.
-Proof. exists ptr_witness. vm_compute. discriminate. Qed.
